@@ -642,14 +642,17 @@ def world_sidecars(cfg, q, schema):
             raise ExtractError('R-quote: generate_world evaluated %d times' % len(wenvs))
         e = {k: v for k, v in wenvs[0].items() if isinstance(v, (str, int, list)) and not isinstance(v, bool)}
         e['Tag'] = [worldgen.tag_of(a) for a in e['Archetype']]
-        e['St'] = [ae['St'] for ae in arch_envs]
-        e['StE'] = [ae['StE'] for ae in arch_envs]
+        by_name = {ae['Archetype']: ae for ae in arch_envs}     # section_archetype may have been evaluated in another order
+        if sorted(by_name) != sorted(e['Archetype']):
+            raise ExtractError('R-quote: section_archetype was evaluated for %s, the world lists %s' % (sorted(by_name), sorted(e['Archetype'])))
+        e['St'] = [by_name[a]['St'] for a in e['Archetype']]
+        e['StE'] = [by_name[a]['StE'] for a in e['Archetype']]
         e['J'] = list(range(len(e['Archetype'])))
         ev = q.envs.get('section_event_iter') or [{}]
         e['iter'] = list(ev[0].get('iter') or ['iter_' + a for a in e['archetype']])      # locals of section_event_iter (events feature)
         e['others_same'] = ['(' + ' && '.join(['true'] + ['post.%s == pre.%s' % (f, f) for j, f in enumerate(e['archetype']) if j != i]) + ')'
                             for i in e['J']]
-        e['data_cs'] = [', '.join('data.c%d()' % k for k in ae['I']) for ae in arch_envs]
+        e['data_cs'] = [', '.join('data.c%d()' % k for k in by_name[a]['I']) for a in e['Archetype']]
         for k in ('Archetype', 'archetype', 'Tag', 'St', 'StE', 'J', 'ArchetypeComponents', 'ArchetypeDirect'):
             e['All' + k] = list(e[k])
         sidecar.parse('worldgen_world.vsp', quoteinst.instantiate(nocomment(apply_sidecar_cfg(open(wpath).read(), cfg)), e), sc)
